@@ -614,7 +614,14 @@ def run_literal_cases(run, cases, impl_exe, dec_exe, label):
     """cases: list of (cid, text)"""
     l1 = [vlib.impl_line((cid, 'front', ['lex0', hxl(list(t.encode()))])) for cid, t in cases]
     l2 = [vlib.impl_line(('E/' + cid, 'eval', ['', hxl(list((DECOMP + 'local r = ' + t + '; [d(r), r]').encode()))])) for cid, t in cases]
-    ires = vlib.run_sharded(impl_exe, l1 + l2, timeout=300)
+    # the same text through std.parseJson / std.parseYaml (their own number scanners, same conversion + gate)
+    JSON_NUM = re.compile(r'(0|[1-9][0-9]*)(\.[0-9]+)?([eE][+-]?[0-9]+)?')
+    l3 = []
+    for cid, t in cases:
+        if JSON_NUM.fullmatch(t) and len(t) < 450:
+            for tag, fn, sign in (('J/', 'parseJson', ''), ('Jn/', 'parseJson', '-'), ('Y/', 'parseYaml', '')):
+                l3.append(vlib.impl_line((tag + cid, 'eval', ['', hxl(list((DECOMP + 'local r = std.%s("%s%s"); [d(r), r]' % (fn, sign, t)).encode()))])))
+    ires = vlib.run_sharded(impl_exe, l1 + l2 + l3, timeout=300)
     mres = vlib.run_sharded(dec_exe, ['\t'.join([cid, 'lit', cps(t)]) for cid, t in cases], timeout=300)
     printed = []
     for cid, t in cases:
@@ -678,6 +685,23 @@ def run_literal_cases(run, cases, impl_exe, dec_exe, label):
             if pyb != mcanon:
                 run.violation('machinery:python-float', 'Python float(%s) = %s but model and implementation agree on %s' % (t[:80], pyb, mcanon), rp, concrete=False)
                 continue
+        # parseJson / parseYaml on the same text: same value (negated for "-text"), or an error where the literal overflows
+        for tag, neg in (('J/', False), ('Jn/', True), ('Y/', False)):
+            if tag + cid not in ires:
+                continue
+            run.evaluations += 1
+            pj = impl_outcome(ires[tag + cid], 0)
+            if ev[0] == 'OK':
+                want = ev[1] ^ (1 << 63 if neg else 0)
+                if pj[0] != 'OK' or pj[1] != want:
+                    what = 'std.parseJson' if tag != 'Y/' else 'std.parseYaml'
+                    key = 'nonfinite:' + what if (pj[0] == 'OK' and not is_finite_bits(pj[1])) else 'text-number-differs:' + what
+                    run.violation(key, '%s("%s%s") gives %s, the literal %s' % (what, '-' if neg else '', t[:80], pj[:2], hx(want)), dict(rp, via=tag))
+            elif pj[0] == 'OK':
+                what = 'std.parseJson' if tag != 'Y/' else 'std.parseYaml'
+                run.violation('nonfinite:' + what if not is_finite_bits(pj[1]) else 'text-number-differs:' + what,
+                              '%s("%s%s") gives %s where the literal overflows' % (what, '-' if neg else '', t[:80], pj[3][:40]), dict(rp, via=tag))
+            run.count('text_number_' + tag.strip('/') + ':' + pj[0])
         sig = len(str(digits).rstrip('0'))
         if ev[0] != 'OK' or sig > 17 or (pyv is not None and pyv != 0 and Fraction(pyv) != Fraction(digits) * Fraction(10) ** exp):
             run.nontrivial.add(('lit', digits, exp))
